@@ -178,7 +178,8 @@ func (prop) Run(t *testing.T, tape *kernel.Tape, sc kernel.Scenario) *kernel.Res
 	}
 	basePath := []string{"/", "/api", "/api/", "api", "/api/v2", ""}[tape.Choose(6, "base")]
 	if len(baseQ) > 0 {
-		basePath += "?" + baseQ.Encode()
+		// written the way people write it into a configuration: characters that are legal in a query stay as they are
+		basePath += "?" + rawishQuery(baseQ)
 	}
 	values := map[string]string{}
 	awkward := false
@@ -604,4 +605,32 @@ func (t *recordingTransport) RoundTrip(r *http.Request) (*http.Response, error) 
 		_ = r.Body.Close()
 	}
 	return &http.Response{StatusCode: 204, Status: "204 No Content", Header: http.Header{}, Body: http.NoBody, Request: r, Proto: "HTTP/1.1", ProtoMajor: 1, ProtoMinor: 1}, nil
+}
+
+// rawishQuery encodes v like url.Values.Encode, except that values made only of characters that may appear literally
+// in a query (letters, digits, ':', '/', '.', '_', '=', '-') are left unescaped.
+func rawishQuery(v url.Values) string {
+	keys := make([]string, 0, len(v))
+	for k := range v {
+		keys = append(keys, k)
+	}
+	sort.Strings(keys)
+	var parts []string
+	for _, k := range keys {
+		for _, val := range v[k] {
+			plain := true
+			for i := 0; i < len(val); i++ {
+				c := val[i]
+				if !(c >= 'a' && c <= 'z' || c >= 'A' && c <= 'Z' || c >= '0' && c <= '9' || strings.IndexByte(":/._=-", c) >= 0) {
+					plain = false
+				}
+			}
+			if plain {
+				parts = append(parts, url.QueryEscape(k)+"="+val)
+			} else {
+				parts = append(parts, url.QueryEscape(k)+"="+url.QueryEscape(val))
+			}
+		}
+	}
+	return strings.Join(parts, "&")
 }
